@@ -408,6 +408,145 @@ func c09(c *Ctx) {
 		r.Check("deleteMetric:delete-only-when-empty", guardOK && paramIndex(dm, dl.Common().Args[0]) == 0 && paramIndex(dm, hc.Common().Args[0]) == 0, dl.Pos(), "Delete(key) only when !HasChildren(key)")
 	})
 
+	c.Rule("C09.R3b", "expiry is tested for every series: in each Reset closure the isExpired call dominates every return and every write into the map (no series skips the test)", 4, func(r *Rule) {
+		reset := w.Func("pkg/statsd", "(*MetricAggregator).Reset")
+		if reset == nil {
+			r.Unresolved("(*MetricAggregator).Reset")
+			return
+		}
+		cls := eachClosures(reset)
+		for _, F := range mmFields {
+			cl := cls[F]
+			if cl == nil {
+				r.Fail("Reset:"+F+":tested", reset.Pos(), "no closure over "+F)
+				continue
+			}
+			calls := callsTo(cl, "pkg/statsd.isExpired")
+			if len(calls) != 1 {
+				r.Fail("Reset:"+F+":tested", cl.Pos(), fmt.Sprintf("%d isExpired calls", len(calls)))
+				continue
+			}
+			ic := calls[0].(ssa.Instruction)
+			bad := ""
+			eachInstr(cl, func(in ssa.Instruction) {
+				switch in.(type) {
+				case *ssa.Return, *ssa.MapUpdate:
+					if !instrDominates(ic, in) {
+						bad = w.Prog.Fset.Position(in.Pos()).String()
+						if bad == "-" || bad == "" {
+							bad = fmt.Sprintf("block %d", in.Block().Index)
+						}
+					}
+				}
+			})
+			r.Check("Reset:"+F+":tested", bad == "", cl.Pos(), "isExpired is evaluated before every return / map write of the "+F+" closure"+map[bool]string{true: "", false: " (not before " + bad + ")"}[bad == ""])
+		}
+	})
+
+	c.Rule("C09.R7", "the per-type expiry defaults are taken from expiry-interval only after every configuration source was loaded (no config-file read / flag parse can follow the SetDefault(expiry-interval-<type>, GetDuration(expiry-interval)) calls)", 5, func(r *Rule) {
+		var fns []*ssa.Function
+		for _, fn := range w.ModuleFuncs() {
+			if fnPkgPath(fn) == Mod+"/cmd/gostatsd" {
+				fns = append(fns, fn)
+			}
+		}
+		isDefault := func(call ssa.CallInstruction) (string, bool) {
+			if !strings.HasSuffix(calleeName(call), "Viper).SetDefault") {
+				return "", false
+			}
+			a := callArgs(call)
+			if len(a) < 2 {
+				return "", false
+			}
+			k, ok := constString(a[0])
+			if !ok || !strings.HasPrefix(k, "expiry-interval-") {
+				return "", false
+			}
+			return k, true
+		}
+		isLoader := func(call ssa.CallInstruction) bool {
+			n := calleeName(call)
+			for _, l := range []string{"Viper).ReadInConfig", "Viper).MergeInConfig", "Viper).ReadConfig", "Viper).MergeConfig", "FlagSet).Parse", "Viper).ReadRemoteConfig"} {
+				if strings.HasSuffix(n, l) {
+					return true
+				}
+			}
+			return false
+		}
+		// per function: does it (transitively, through static module calls) reach a default / a loader?
+		type reach struct{ def, load bool }
+		memo := map[*ssa.Function]*reach{}
+		var visit func(fn *ssa.Function) *reach
+		visit = func(fn *ssa.Function) *reach {
+			if m, ok := memo[fn]; ok {
+				return m
+			}
+			m := &reach{}
+			memo[fn] = m
+			for _, f := range WithAnon(fn) {
+				for _, call := range callsIn(f) {
+					if _, ok := isDefault(call); ok {
+						m.def = true
+					}
+					if isLoader(call) {
+						m.load = true
+					}
+					if cal := staticCallee(call); cal != nil && IsModule(cal) {
+						x := visit(cal)
+						m.def = m.def || x.def
+						m.load = m.load || x.load
+					}
+				}
+			}
+			return m
+		}
+		nDef, nLoad := 0, 0
+		for _, fn := range fns {
+			type site struct {
+				in        ssa.Instruction
+				def, load bool
+			}
+			var sites []site
+			for _, call := range callsIn(fn) {
+				st := site{in: call.(ssa.Instruction)}
+				if k, ok := isDefault(call); ok {
+					st.def = true
+					nDef++
+					// the value is GetDuration("expiry-interval")
+					es := exprString(callArgs(call)[1], 0)
+					r.Check("default:"+k+":from-expiry-interval", strings.Contains(es, "GetDuration") && strings.Contains(es, "\"expiry-interval\""), call.Pos(), k+" defaults to "+es)
+				}
+				if isLoader(call) {
+					st.load = true
+					nLoad++
+				}
+				if cal := staticCallee(call); cal != nil && IsModule(cal) {
+					x := visit(cal)
+					st.def = st.def || x.def
+					st.load = st.load || x.load
+				}
+				if st.def || st.load {
+					sites = append(sites, st)
+				}
+			}
+			for _, d := range sites {
+				if !d.def {
+					continue
+				}
+				for _, l := range sites {
+					if !l.load || l.in == d.in {
+						continue
+					}
+					if instrReaches(d.in, l.in) {
+						r.Fail(FuncName(fn)+":defaults-before-load", d.in.Pos(), "a configuration source is loaded at "+w.Prog.Fset.Position(l.in.Pos()).String()+" after the per-type expiry defaults were captured: an expiry-interval set there is ignored for every type")
+					}
+				}
+			}
+		}
+		r.Check("defaults:four-types", nDef == 4, token.NoPos, fmt.Sprintf("%d SetDefault(expiry-interval-<type>) calls", nDef))
+		r.Check("loaders:found", nLoad >= 1, token.NoPos, fmt.Sprintf("%d configuration loading calls (ReadInConfig / flag parse) in cmd/gostatsd", nLoad))
+	})
+
 	c.Rule("C09.R4", "Reset keeps identity fields incl. Timestamp, zeroes data, leaves gauges untouched (C01.R3)", 20, func(r *Rule) {
 		resetRule(c, r)
 	})
